@@ -291,6 +291,13 @@ func splitFilter(s, sep string) any {
 func uniqFilter(a []any) (result []any) {
 	seenMap := map[any]bool{}
 	seen := func(item any) bool {
+		if item == nil {
+			if seenMap[item] {
+				return true
+			}
+			seenMap[item] = true
+			return false
+		}
 		if k := reflect.TypeOf(item).Kind(); k < reflect.Array || k == reflect.Ptr || k == reflect.UnsafePointer {
 			if seenMap[item] {
 				return true
@@ -315,6 +322,9 @@ func uniqFilter(a []any) (result []any) {
 }
 
 func eqItems(a, b any) bool {
+	if a == nil || b == nil {
+		return a == nil && b == nil
+	}
 	if reflect.TypeOf(a).Comparable() && reflect.TypeOf(b).Comparable() {
 		return a == b
 	}
